@@ -30,6 +30,9 @@ pub struct SimDoc {
     pub age: u64,
     pub score: Option<i64>,
     pub tags: Vec<String>,
+    /// unique ARRAY field: no two live documents share an element
+    #[unique]
+    pub codes: Vec<String>,
     pub body: String,
     pub embedding: Vector,
 }
@@ -54,7 +57,8 @@ pub const IX_TAGS: u8 = 8; // array
 pub const IX_AGE_SCORE: u8 = 16; // composite, unique
 pub const IX_BODY: u8 = 32; // bm25
 pub const IX_VEC: u8 = 64; // hnsw
-pub const IX_ALL: u8 = 127;
+pub const IX_CODES: u8 = 128; // array, unique
+pub const IX_ALL: u8 = 255;
 
 #[derive(Clone, Debug, Serialize, Deserialize, PartialEq)]
 pub struct Knobs {
@@ -74,7 +78,7 @@ impl Knobs {
                 2 => StackKind::Meta,
                 _ => StackKind::Enc(*rng.pick(&[16u64, 64, 65536])),
             },
-            indexes: if rng.chance(1, 2) { IX_ALL } else { (rng.below(128) as u8) | IX_NAME },
+            indexes: if rng.chance(1, 2) { IX_ALL } else { (rng.below(256) as u8) | IX_NAME },
             cache: if rng.chance(1, 3) { 0 } else { 10000 },
             compress: if rng.bool() { 0 } else { 3 },
             bucket: *rng.pick(&[64usize, 256, 1024, 1024 * 1024]),
@@ -137,6 +141,9 @@ pub async fn install_indexes(c: &mut Collection, indexes: u8) -> Result<(), DBEr
     if indexes & IX_AGE_SCORE != 0 {
         c.create_btree_index_nx(&["age", "score"]).await?;
     }
+    if indexes & IX_CODES != 0 {
+        c.create_btree_index_nx(&["codes"]).await?;
+    }
     if indexes & IX_BODY != 0 {
         c.create_bm25_index_nx(&["body"]).await?;
     }
@@ -164,6 +171,22 @@ pub struct DocSpec {
     pub tags: Vec<u8>,
     pub body: Vec<u8>,
     pub vec: [i8; 4],
+    /// elements of the unique array field (distinct within one document)
+    #[serde(default)]
+    pub codes: Vec<u8>,
+}
+
+pub const CODES: u64 = 6;
+
+pub fn gen_codes(rng: &mut Rng) -> Vec<u8> {
+    let mut v: Vec<u8> = (0..rng.weighted(&[50, 30, 20])).map(|_| rng.below(CODES) as u8).collect();
+    v.sort();
+    v.dedup();
+    v
+}
+
+pub fn codes_text(codes: &[u8]) -> Vec<String> {
+    codes.iter().map(|c| format!("c{c}")).collect()
 }
 
 impl DocSpec {
@@ -175,6 +198,7 @@ impl DocSpec {
             tags: (0..rng.below(3)).map(|_| rng.below(TAGS.len() as u64) as u8).collect(),
             body: (0..rng.range(1, 4)).map(|_| rng.below(10) as u8).collect(),
             vec: [rng.below(9) as i8 - 4, rng.below(9) as i8 - 4, rng.below(9) as i8 - 4, rng.below(5) as i8],
+            codes: gen_codes(rng),
         }
     }
     pub fn to_doc(&self, vocab: &[String]) -> SimDoc {
@@ -184,6 +208,7 @@ impl DocSpec {
             age: self.age as u64,
             score: self.score.map(|s| s as i64),
             tags: self.tags.iter().map(|t| TAGS[*t as usize % TAGS.len()].to_string()).collect(),
+            codes: codes_text(&self.codes),
             body: body_text(&self.body, vocab),
             embedding: vec_of(&self.vec),
         }
@@ -205,6 +230,7 @@ pub enum FieldUpd {
     Tags(Vec<u8>),
     Body(Vec<u8>),
     Vec([i8; 4]),
+    Codes(Vec<u8>),
     /// schema violations
     UnknownField,
     WrongType,
@@ -240,7 +266,7 @@ pub enum DOp {
 /// documents (creating a unique index over duplicates legitimately fails).
 pub fn indexes_after(cur: u8, op: &DOp) -> u8 {
     match op {
-        DOp::Reindex { set } => (*set | IX_NAME) & !(IX_AGE_SCORE & !cur),
+        DOp::Reindex { set } => (*set | IX_NAME) & !((IX_AGE_SCORE | IX_CODES) & !cur),
         _ => cur,
     }
 }
@@ -263,6 +289,9 @@ pub async fn remove_indexes(c: &mut Collection, mask: u8) -> Result<(), DBError>
     if mask & IX_AGE_SCORE != 0 {
         c.remove_btree_index(&["age", "score"]).await?;
     }
+    if mask & IX_CODES != 0 {
+        c.remove_btree_index(&["codes"]).await?;
+    }
     if mask & IX_BODY != 0 {
         c.remove_bm25_index(&["body"]).await?;
     }
@@ -280,7 +309,7 @@ impl DOp {
             1 => {
                 let n = rng.range(1, 2);
                 let fields = (0..n)
-                    .map(|_| match rng.weighted(&[20, 20, 20, 12, 14, 10, 2, 2]) {
+                    .map(|_| match rng.weighted(&[20, 20, 20, 12, 14, 10, 2, 2, 14]) {
                         0 => FieldUpd::Name(rng.below(7) as u8),
                         1 => FieldUpd::Age(rng.below(4) as u8),
                         2 => FieldUpd::Score(if rng.chance(1, 4) { None } else { Some(rng.below(4) as i8 - 1) }),
@@ -288,7 +317,8 @@ impl DOp {
                         4 => FieldUpd::Body((0..rng.range(1, 4)).map(|_| rng.below(10) as u8).collect()),
                         5 => FieldUpd::Vec([rng.below(9) as i8 - 4, rng.below(9) as i8 - 4, rng.below(9) as i8 - 4, rng.below(5) as i8]),
                         6 => FieldUpd::UnknownField,
-                        _ => FieldUpd::WrongType,
+                        7 => FieldUpd::WrongType,
+                        _ => FieldUpd::Codes(gen_codes(rng)),
                     })
                     .collect();
                 DOp::Update { id: id(rng), fields }
@@ -346,6 +376,9 @@ impl DocModel {
             if indexes & IX_AGE_SCORE != 0 && composite_key(o) == composite_key(d) {
                 return Some("unique-composite");
             }
+            if indexes & IX_CODES != 0 && d.codes.iter().any(|c| o.codes.contains(c)) {
+                return Some("unique-codes");
+            }
         }
         None
     }
@@ -376,6 +409,7 @@ impl DocModel {
                         FieldUpd::Tags(_) => "tags",
                         FieldUpd::Body(_) => "body",
                         FieldUpd::Vec(_) => "embedding",
+                        FieldUpd::Codes(_) => "codes",
                         FieldUpd::UnknownField => "no_such_field",
                     };
                     last.insert(k, f);
@@ -388,6 +422,7 @@ impl DocModel {
                         FieldUpd::Tags(t) => d.tags = t.iter().map(|t| TAGS[*t as usize % TAGS.len()].to_string()).collect(),
                         FieldUpd::Body(b) => d.body = body_text(b, vocab),
                         FieldUpd::Vec(v) => d.embedding = vec_of(v),
+                        FieldUpd::Codes(c) => d.codes = codes_text(c),
                         FieldUpd::UnknownField => return Expect::Reject("unknown-field"),
                         FieldUpd::WrongType => return Expect::Reject("schema-violation"),
                     }
@@ -452,6 +487,9 @@ pub fn update_fields(fields: &[FieldUpd], vocab: &[String]) -> BTreeMap<String, 
             }
             FieldUpd::Vec(v) => {
                 m.insert("embedding".to_string(), Fv::Vector(vec_of(v)));
+            }
+            FieldUpd::Codes(c) => {
+                m.insert("codes".to_string(), Fv::Array(codes_text(c).into_iter().map(Fv::Text).collect()));
             }
             FieldUpd::UnknownField => {
                 m.insert("no_such_field".to_string(), Fv::U64(1));
@@ -602,6 +640,17 @@ pub async fn observe(c: &Collection, indexes: u8, vocab: &[String], probe_ids_up
                 }
                 check_btree("age-score", format!("Eq({a},{s:?})"), got, want)?;
             }
+        }
+    }
+    if indexes & IX_CODES != 0 {
+        for n in 0..CODES {
+            let key = format!("c{n}");
+            let got = q("codes", RangeQuery::Eq(Fv::Text(key.clone()))).await.map_err(|e| violation!("c02.query-error", "codes Eq failed: {e:?}"))?;
+            let want = ids_where(&|d| d.codes.iter().any(|x| *x == key));
+            if want.len() > 1 {
+                return Err(violation!("c04.unique-codes-broken", "documents {want:?} all hold the element {key} of the unique array field"));
+            }
+            check_btree("codes", format!("Eq({key})"), got, want)?;
         }
     }
     // uniqueness over the stored documents themselves
